@@ -55,9 +55,30 @@ struct Env<'a> {
     probe_runs: Cell<u64>,
     strace_runs: Cell<u64>,
     max_alive: Cell<u64>,
+    /// an unknown failure was seen in the current sub-check: what follows are shrink candidates and the final
+    /// re-run, which are given up to three executions to fail again (failures here depend on OS scheduling)
+    shrinking: Cell<bool>,
 }
 
 impl<'a> Env<'a> {
+    /// `run_case` for the proptest-driven sub-checks and for replays.
+    fn attempt(&self, case: &Case) -> CaseResult {
+        let tries = if self.ctx.is_replay() { 5 } else if self.shrinking.get() { 3 } else { 1 };
+        let mut r = run_case(self, case);
+        for _ in 1..tries {
+            if r.is_err() {
+                break;
+            }
+            r = run_case(self, case);
+        }
+        if let Err(x) = &r {
+            if !self.known(&x.sig) {
+                self.shrinking.set(true);
+            }
+        }
+        r
+    }
+
     fn known(&self, sig: &str) -> bool {
         self.ctx.known.iter().any(|k| sig == k.signature || (k.signature.ends_with('*') && sig.starts_with(&k.signature[..k.signature.len() - 1])))
     }
@@ -859,16 +880,19 @@ pub fn run(ctx: &Ctx) {
         probe_runs: Cell::new(0),
         strace_runs: Cell::new(0),
         max_alive: Cell::new(0),
+        shrinking: Cell::new(false),
     };
     let builds = builds_for(ctx);
     let max_b = if ctx.thorough() { 10 } else { 5 };
     if c06 {
-        ctx.run_prop_opts("release", ctx.cases(40, 1500), 150, case_strategy(true, builds.clone(), false, max_b), |c| run_case(&env, c));
-        ctx.run_prop_opts("release-strace", ctx.cases(6, 120), 60, case_strategy(true, builds.clone(), true, 2), |c| run_case(&env, c));
+        ctx.run_prop_opts("release", ctx.cases(40, 1500), 150, case_strategy(true, builds.clone(), false, max_b), |c| env.attempt(c));
+        env.shrinking.set(false);
+        ctx.run_prop_opts("release-strace", ctx.cases(6, 120), 60, case_strategy(true, builds.clone(), true, 2), |c| env.attempt(c));
+        env.shrinking.set(false);
         // fixed cases: the complete (type x return|panic x disposition) matrix under strace, and the two minimal
         // histories in which a heap-owning result meets a dropped handle (one per outcome of the flag race)
         if let Some(case) = ctx.replay_case::<Case>("fixed") {
-            ctx.run_one("fixed", &case, || run_case(&env, &case));
+            ctx.run_one("fixed", &case, || env.attempt(&case));
         } else if !ctx.is_replay() {
             let mut all = Vec::new();
             for build in &builds {
@@ -885,11 +909,13 @@ pub fn run(ctx: &Ctx) {
             }
         }
     } else {
-        ctx.run_prop_opts("join", ctx.cases(40, 1500), 150, case_strategy(false, builds.clone(), false, max_b), |c| run_case(&env, c));
-        ctx.run_prop_opts("join-strace", ctx.cases(5, 100), 60, case_strategy(false, builds.clone(), true, 2), |c| run_case(&env, c));
+        ctx.run_prop_opts("join", ctx.cases(40, 1500), 150, case_strategy(false, builds.clone(), false, max_b), |c| env.attempt(c));
+        env.shrinking.set(false);
+        ctx.run_prop_opts("join-strace", ctx.cases(5, 100), 60, case_strategy(false, builds.clone(), true, 2), |c| env.attempt(c));
+        env.shrinking.set(false);
         // complete fault enumeration on the fixed batches: every stack mmap, every clone (x EAGAIN, ENOMEM)
         if let Some(case) = ctx.replay_case::<Case>("fault") {
-            ctx.run_one("fault", &case, || run_case(&env, &case));
+            ctx.run_one("fault", &case, || env.attempt(&case));
         } else if !ctx.is_replay() {
             let fixed = fixed_batches();
             let mut all = Vec::new();
@@ -917,7 +943,8 @@ pub fn run(ctx: &Ctx) {
             }
         }
         if ctx.thorough() {
-            ctx.run_prop_opts("fault-rand", ctx.cases(0, 60), 60, fault_case_strategy(builds.clone()), |c| run_case(&env, c));
+            ctx.run_prop_opts("fault-rand", ctx.cases(0, 60), 60, fault_case_strategy(builds.clone()), |c| env.attempt(c));
+        env.shrinking.set(false);
         }
     }
     ctx.extra("threads_created", serde_json::json!(env.threads.get()));
